@@ -1,67 +1,549 @@
+// c18: tolerated failures leave none of their own partial effects — correspondence + monitor on the REAL app.
+//
+// For each of the four boundaries (attestation handler, inbound bridge call, gov proposal messages,
+// IBC receive with follow-up) the harness provokes the failure at every distinguishable point on a cache
+// branch of the real state, computes the designated outcome with the keepers' own primitives on a second
+// fresh branch, and compares full store dumps (monitor, independent of the model).  The same cases, in
+// abstract form, are written to Cases_C18_*.v and evaluated against model/M_Cache.v inside coqc.
 package main
 
 import (
+	"encoding/hex"
 	"fmt"
+	"math/big"
+	"sort"
+	"strings"
 
 	sdkmath "cosmossdk.io/math"
 	sdk "github.com/cosmos/cosmos-sdk/types"
 	"github.com/ethereum/go-ethereum/common"
+	"github.com/ethereum/go-ethereum/core/vm"
 
+	"github.com/functionx/fx-core/v8/contract"
 	crosschaintypes "github.com/functionx/fx-core/v8/x/crosschain/types"
+	erc20types "github.com/functionx/fx-core/v8/x/erc20/types"
 
 	"fxverif/c18/tok"
 	"fxverif/lib"
 )
 
-func main() {
-	c := lib.NewChain(1, 1, nil)
-	lib.Must(c.NextBlock())
-	x := c.X("eth")
-	A := tok.AddToken(c, c.Ctx, "eth", 0, true)
-	B := tok.AddToken(c, c.Ctx, "eth", 1, true)
-	rev := common.HexToAddress("0x00000000000000000000000000000000000c0de1")
-	c.InstallCode(c.Ctx, rev, (&lib.Asm{}).Revert().B)
-	lib.Must(c.NextBlock())
+type env struct {
+	c      *lib.Chain
+	x      *lib.XChain
+	r      *lib.Rand
+	rep    *lib.Report
+	toks   []tok.Token // native-coin pairs on eth, ids 0..; base denoms sort like the ids
+	nonce  uint64      // last event nonce voted by every oracle on c.Ctx
+	extH   uint64
+	search bool
+	// contracts
+	cStop, cRevert, cInvalid, cLoop, cWriteRevert, cWriteStop, cGas common.Address
+}
 
-	S := lib.EthKey(1, "u", 0).Hex()
-	F := lib.EthKey(1, "u", 1).Hex()
-	msg := &crosschaintypes.MsgBridgeCallClaim{
-		ChainName: "eth", BridgerAddress: lib.EthKey(1, "u", 9).Acc().String(), EventNonce: 1, BlockHeight: 1,
-		Sender: S.Hex(), Refund: F.Hex(), To: rev.Hex(), TokenContracts: []string{A.Contract, B.Contract},
-		Amounts: []sdkmath.Int{sdkmath.NewInt(100), sdkmath.NewInt(200)}, Value: sdkmath.ZeroInt(), TxOrigin: S.Hex(),
+const writeVal = 77
+
+func main() {
+	seed := lib.Seed()
+	e := &env{r: lib.NewRand(seed), rep: lib.NewReport("C18")}
+	e.search = lib.EnvInt("VERIF_SEARCH", 0) == 1 || strings.EqualFold(getenv("VERIF_MODE"), "search")
+	e.rep.Rule = "one case = one provoked failure (or success control) at a boundary, run on a cache branch of the real app state: " +
+		"bridge call (tokens 0-4 of 3 incl. duplicates/zero/unregistered at position i, pair disabled at coin i, target EOA/STOP/REVERT/INVALID/loop/write+revert/write+stop/gas-hungry with BridgeCallMaxGasLimit lowered by a real params update, refund = receiver | other poor | other rich, memo send-call-to), " +
+		"attestation (bridge-token claim existing/new, oracle-set claim unknown/known nonce, send-to-fx), gov (1-4 bank sends from the gov account, failing one at every position: overdraw or blocked recipient), " +
+		"IBC receive (parse / transfer / follow-up failures incl. memo call revert after writes); non-trivial = the sub-step fails after at least one write inside the cache branch; distinct by case content"
+
+	n := 40
+	if lib.Tier() == "thorough" {
+		n = 300
 	}
-	show := func(ctx sdk.Context, tag string) {
-		fmt.Println(tag)
-		for _, who := range []common.Address{rev, F, S} {
-			fmt.Printf("  %s bank A=%s B=%s erc A=%s B=%s\n", who.Hex()[:8], tok.Bank(c, ctx, who.Bytes(), A.Base), tok.Bank(c, ctx, who.Bytes(), B.Base),
-				tok.BalanceOf(c, ctx, A.Erc20, who), tok.BalanceOf(c, ctx, B.Erc20, who))
+	if e.search {
+		n *= 2
+	}
+	if v := lib.EnvInt("VERIF_N", 0); v > 0 {
+		n = int(v)
+	}
+	e.setup(seed)
+	if p := getenv("VERIF_REPLAY"); p != "" && getenv("VERIF_MODE") == "replay" {
+		e.replay(p)
+		return
+	}
+	e.findingViaPrecompile()
+
+	var bc, att, gv, rc []string
+	// fixed corpus first (replays of the model's witnesses), then generated cases
+	bc = append(bc, e.bridgeCallCorpus()...)
+	for i := 0; i < n; i++ {
+		bc = append(bc, e.bridgeCallCase(e.genBridgeCall()))
+	}
+	att = e.attestationCases()
+	gv = e.govCases(n / 4)
+	rc = e.ibcRecvCases()
+
+	imports := []string{"model.M_Cache", "model.M_CacheCorr"}
+	lib.WriteCases("Cases_C18_bridgecall.v", imports, "bc_case", bc, "bc_mismatch")
+	lib.WriteCases("Cases_C18_attestation.v", imports, "att_case", att, "att_mismatch")
+	lib.WriteCases("Cases_C18_gov.v", imports, "gov_case", gv, "gov_mismatch")
+	lib.WriteCases("Cases_C18_ibcrecv.v", imports, "recv_case", rc, "recv_mismatch")
+	e.rep.Write()
+}
+
+func getenv(k string) string {
+	v, _ := lookupEnv(k)
+	return v
+}
+
+func (e *env) setup(seed int64) {
+	c := lib.NewChain(seed, 1, nil)
+	e.c = c
+	lib.Must(c.NextBlock())
+	e.x = c.X("eth")
+	e.x.SetupOracles([]int64{10_000, 10_000})
+	for i := 0; i < 3; i++ {
+		e.toks = append(e.toks, tok.AddToken(c, c.Ctx, "eth", i, true))
+	}
+	lib.Must(c.NextBlock())
+	mk := func(i byte, code []byte) common.Address {
+		a := common.BytesToAddress([]byte{0xc0, 0xde, 0x18, i})
+		c.InstallCode(c.Ctx, a, code)
+		return a
+	}
+	e.cStop = mk(1, (&lib.Asm{}).Stop().B)
+	e.cRevert = mk(2, (&lib.Asm{}).Revert().B)
+	e.cInvalid = mk(3, (&lib.Asm{}).Invalid().B)
+	e.cLoop = mk(4, (&lib.Asm{}).Op(vm.JUMPDEST).PushU(0).Op(vm.JUMP).B)
+	e.cWriteRevert = mk(5, (&lib.Asm{}).SStore(0, writeVal).Revert().B)
+	e.cWriteStop = mk(6, (&lib.Asm{}).SStore(0, writeVal).Stop().B)
+	g := &lib.Asm{}
+	for i := uint64(1); i <= 12; i++ { // 12 fresh storage slots: > 240k gas
+		g.SStore(i, i)
+	}
+	e.cGas = mk(7, g.SStore(0, writeVal).Stop().B)
+	// accounts that take part exist beforehand (first-time account creation is bookkeeping of the bank, not compared)
+	for _, a := range []common.Address{lib.EthKey(seed, "bc-sender", 0).Hex(), lib.EthKey(seed, "bc-refund", 0).Hex(), lib.EthKey(seed, "eoa-target", 0).Hex()} {
+		c.EnsureAccount(c.Ctx, a.Bytes())
+	}
+	for _, m := range []string{"eth", erc20types.ModuleName} {
+		c.App.AccountKeeper.GetModuleAccount(c.Ctx, m)
+	}
+	lib.Must(c.NextBlock())
+	// a first observed event so that an external block height is known (bridge-call timeouts need it)
+	e.extH = 1000
+	e.observe(c.Ctx, &crosschaintypes.MsgSendToFxClaim{
+		TokenContract: e.toks[0].Contract, Amount: sdkmath.NewInt(1), Sender: lib.EthKey(seed, "ext", 0).Hex().Hex(),
+		Receiver: lib.EthKey(seed, "warm", 0).Acc().String(),
+	})
+	lib.Must(c.NextBlock())
+}
+
+// vote submits claim as oracle o's vote through the real MsgServer on ctx with transaction semantics.
+func (e *env) vote(ctx sdk.Context, o *lib.Oracle, claim crosschaintypes.ExternalClaim) error {
+	return tryOn(ctx, func(ctx sdk.Context) error {
+		return claimOn(e.x, ctx, o, claim)
+	})
+}
+
+// observe makes every oracle vote for the claim (event nonce = last+1) on ctx; returns the event nonce.
+func (e *env) observe(ctx sdk.Context, claim crosschaintypes.ExternalClaim) uint64 {
+	n := e.x.Keeper.GetLastObservedEventNonce(ctx) + 1
+	e.extH++
+	setNonce(claim, n, e.extH)
+	for _, o := range e.x.Oracles {
+		lib.Must(e.vote(ctx, o, cloneClaim(claim)))
+	}
+	return n
+}
+
+func tryOn(ctx sdk.Context, f func(ctx sdk.Context) error) (err error) {
+	cctx, write := ctx.CacheContext()
+	defer func() {
+		if r := recover(); r != nil {
+			err = fmt.Errorf("PANIC: %v", r)
 		}
-		x.Keeper.IterateOutgoingBridgeCalls(ctx, func(o *crosschaintypes.OutgoingBridgeCall) bool {
-			fmt.Printf("  outcall %+v\n", o)
+	}()
+	if e := f(cctx); e != nil {
+		return e
+	}
+	write()
+	return nil
+}
+
+// ---------------------------------------------------------------------------------------------
+// boundary 2: inbound bridge call
+
+type bcCase struct {
+	Tokens     [][2]int64 `json:"tokens"`      // (token id, amount); id 9 = a contract the module does not know
+	Disabled   []int      `json:"disabled"`    // token ids whose ERC-20 pair is disabled
+	Target     string     `json:"target"`      // eoa|stop|revert|invalid|loop|writerevert|writestop|gas
+	LowGas     bool       `json:"low_gas"`     // BridgeCallMaxGasLimit lowered to 100000 by a real params update
+	BlockGas   int64      `json:"block_gas"`   // consensus block max gas seen by the call: 0 = chain default, -1 = unlimited, else the value
+	Refund     string     `json:"refund"`      // same|poor|rich
+	SendCallTo bool       `json:"send_call_to"`
+	SenderIsRefund bool   `json:"sender_is_refund"`
+}
+
+func (e *env) genBridgeCall() bcCase {
+	r := e.r
+	var k bcCase
+	nt := r.Intn(5)
+	for i := 0; i < nt; i++ {
+		id := int64(r.Intn(3))
+		amt := int64(1 + r.Intn(1000))
+		if r.Chance(6) {
+			amt = 0
+		}
+		k.Tokens = append(k.Tokens, [2]int64{id, amt})
+	}
+	if nt > 0 && r.Chance(8) {
+		k.Tokens[r.Intn(nt)][0] = 9
+	}
+	if r.Chance(45) {
+		k.Disabled = append(k.Disabled, r.Intn(3))
+		if r.Chance(20) {
+			k.Disabled = append(k.Disabled, r.Intn(3))
+		}
+	}
+	k.Target = []string{"eoa", "stop", "revert", "invalid", "loop", "writerevert", "writestop", "gas", "revert", "writerevert"}[r.Intn(10)]
+	k.LowGas = (k.Target == "gas" && r.Chance(70)) || r.Chance(10)
+	if k.Target == "gas" || r.Chance(10) {
+		k.BlockGas = []int64{0, -1, -1, 100_000, 5_000_000}[r.Intn(5)]
+	}
+	k.Refund = []string{"same", "same", "poor", "rich"}[r.Intn(4)]
+	k.SendCallTo = r.Chance(15)
+	k.SenderIsRefund = r.Chance(50)
+	if e.search {
+		// search mode: weight towards the situations a broken boundary would show up in
+		if k.Target == "eoa" || k.Target == "stop" {
+			k.Target = "writerevert"
+		}
+	}
+	return k
+}
+
+func (e *env) bridgeCallCorpus() []string {
+	var out []string
+	for _, k := range []bcCase{
+		// the model's _refuted witness and its poor-refund sibling
+		{Tokens: [][2]int64{{0, 10}}, Target: "writerevert", Refund: "rich"},
+		{Tokens: [][2]int64{{0, 10}}, Target: "writerevert", Refund: "poor"},
+		// same-holder non-vacuity example: several tokens, a duplicate, contract writes then reverts
+		{Tokens: [][2]int64{{1, 5}, {0, 10}, {1, 2}}, Target: "writerevert", Refund: "same"},
+		// disabled pair at first / middle / last coin
+		{Tokens: [][2]int64{{0, 3}, {1, 4}, {2, 5}}, Disabled: []int{0}, Target: "stop", Refund: "same"},
+		{Tokens: [][2]int64{{0, 3}, {1, 4}, {2, 5}}, Disabled: []int{1}, Target: "stop", Refund: "same"},
+		{Tokens: [][2]int64{{0, 3}, {1, 4}, {2, 5}}, Disabled: []int{2}, Target: "stop", Refund: "same"},
+		{Tokens: [][2]int64{{0, 3}, {1, 4}, {2, 5}}, Disabled: []int{2}, Target: "eoa", Refund: "same"},
+		// out of gas in two ways
+		{Tokens: [][2]int64{{0, 3}}, Target: "loop", Refund: "same"},
+		{Tokens: [][2]int64{{0, 3}}, Target: "gas", LowGas: true, Refund: "same"},
+		{Tokens: [][2]int64{{0, 3}}, Target: "gas", LowGas: true, BlockGas: -1, Refund: "same"},
+		{Tokens: [][2]int64{{0, 3}}, Target: "gas", BlockGas: 100_000, Refund: "same"},
+		{Tokens: [][2]int64{{0, 3}}, Target: "gas", Refund: "same"},
+		{Tokens: [][2]int64{{2, 8}}, Target: "invalid", Refund: "same", SendCallTo: true, SenderIsRefund: true},
+		{Tokens: [][2]int64{{2, 8}}, Target: "revert", Refund: "same", SendCallTo: true, SenderIsRefund: false},
+		{Tokens: nil, Target: "writerevert", Refund: "same"},
+		{Tokens: [][2]int64{{0, 3}, {9, 4}}, Target: "stop", Refund: "same"},
+	} {
+		out = append(out, e.bridgeCallCase(k))
+	}
+	return out
+}
+
+func (e *env) target(name string) (common.Address, bool, bool, int64) {
+	// address, isContract, fails (by construction), value written to slot 0 before returning/failing
+	switch name {
+	case "stop":
+		return e.cStop, true, false, 0
+	case "revert":
+		return e.cRevert, true, true, 0
+	case "invalid":
+		return e.cInvalid, true, true, 0
+	case "loop":
+		return e.cLoop, true, true, 0
+	case "writerevert":
+		return e.cWriteRevert, true, true, writeVal
+	case "writestop":
+		return e.cWriteStop, true, false, writeVal
+	case "gas":
+		return e.cGas, true, false, writeVal
+	}
+	return lib.EthKey(e.c.Seed, "eoa-target", 0).Hex(), false, false, 0
+}
+
+func (e *env) bridgeCallCase(k bcCase) string {
+	c, x := e.c, e.x
+	B, _ := c.Ctx.CacheContext()
+	to, isContract, fails, writes := e.target(k.Target)
+	if k.BlockGas != 0 {
+		cp := B.ConsensusParams()
+		blk := *cp.Block
+		blk.MaxGas = k.BlockGas
+		cp.Block = &blk
+		B = B.WithConsensusParams(cp)
+	}
+	// x/evm CallEVM: the gas limit argument (BridgeCallMaxGasLimit) is replaced by the block max gas whenever that is > 0
+	limit := int64(crosschaintypes.MaxGasLimit)
+	if k.LowGas {
+		limit = 100_000
+	}
+	if mg := B.ConsensusParams().Block.MaxGas; mg > 0 {
+		limit = mg
+	}
+	if k.Target == "gas" && limit < 300_000 {
+		fails = true
+	}
+	if k.LowGas {
+		p := x.Keeper.GetParams(B)
+		p.BridgeCallMaxGasLimit = 100_000
+		_, err := x.Msg().UpdateParams(B, &crosschaintypes.MsgUpdateParams{ChainName: "eth", Authority: lib.GovAuthority(), Params: p})
+		lib.Must(err)
+	}
+	if !isContract {
+		writes = 0
+	}
+	sender := lib.EthKey(c.Seed, "bc-sender", 0).Hex()
+	var refund common.Address
+	receiver := to
+	if k.SendCallTo {
+		receiver = sender
+	}
+	switch k.Refund {
+	case "same":
+		refund = receiver
+	default:
+		refund = lib.EthKey(c.Seed, "bc-refund", 0).Hex()
+		if k.SendCallTo && k.SenderIsRefund {
+			// sender is the refund address: receiver == refund after all
+			refund = sender
+		}
+	}
+	for _, d := range k.Disabled {
+		tok.SetEnabled(c, B, e.toks[d], false)
+	}
+	if k.Refund == "rich" {
+		for _, t := range e.toks {
+			coins := sdk.NewCoins(sdk.NewCoin(t.Base, sdkmath.NewInt(100_000)))
+			lib.Must(c.App.BankKeeper.MintCoins(B, "mint", coins))
+			lib.Must(c.App.BankKeeper.SendCoinsFromModuleToAccount(B, "mint", refund.Bytes(), coins))
+			// keep the bridge accounting balanced: the module holds the bridge tokens behind these base coins
+			bc := sdk.NewCoins(sdk.NewCoin(t.BridgeDenom, sdkmath.NewInt(100_000)))
+			lib.Must(c.App.BankKeeper.MintCoins(B, "eth", bc))
+		}
+	}
+	msg := &crosschaintypes.MsgBridgeCallClaim{
+		Sender: sender.Hex(), Refund: refund.Hex(), To: to.Hex(), Value: sdkmath.ZeroInt(), TxOrigin: sender.Hex(),
+	}
+	unknown := lib.EthKey(c.Seed, "unknown-token", 0).Hex().Hex()
+	for _, ta := range k.Tokens {
+		if ta[0] == 9 {
+			msg.TokenContracts = append(msg.TokenContracts, unknown)
+		} else {
+			msg.TokenContracts = append(msg.TokenContracts, e.toks[ta[0]].Contract)
+		}
+		msg.Amounts = append(msg.Amounts, sdkmath.NewInt(ta[1]))
+	}
+	if k.SendCallTo {
+		msg.Memo = hex.EncodeToString(crosschaintypes.MemoSendCallTo.Bytes())
+	}
+	nonce := e.observe(B, msg)
+	if _, ok := x.Keeper.GetPendingExecuteClaim(B, nonce); !ok {
+		panic("claim not pending after observation")
+	}
+
+	// ---- ids and watched keys of the abstract case
+	holders := []common.Address{}
+	hid := map[common.Address]int64{}
+	for _, a := range []common.Address{to, refund, sender} {
+		if _, ok := hid[a]; !ok {
+			hid[a] = int64(len(holders) + 1)
+			holders = append(holders, a)
+		}
+	}
+	type wk struct {
+		h, kind, t int64
+	}
+	var keys []wk
+	for t := range e.toks {
+		for _, a := range holders {
+			keys = append(keys, wk{hid[a], 0, int64(t)}, wk{hid[a], 2, int64(t)})
+		}
+		keys = append(keys, wk{-1, 1, int64(t)}, wk{-2, 0, int64(t)}, wk{-3, 0, int64(t)}, wk{-3, 1, int64(t)}, wk{-3, 2, int64(t)})
+	}
+	read := func(ctx sdk.Context, k wk) *big.Int {
+		t := e.toks[k.t]
+		switch {
+		case k.h > 0 && k.kind == 0:
+			return tok.Bank(c, ctx, holders[k.h-1].Bytes(), t.Base).BigInt()
+		case k.h > 0 && k.kind == 2:
+			return tok.BalanceOf(c, ctx, t.Erc20, holders[k.h-1])
+		case k.h == -1:
+			return tok.Bank(c, ctx, c.App.AccountKeeper.GetModuleAddress("eth"), t.BridgeDenom).BigInt()
+		case k.h == -2:
+			return tok.Bank(c, ctx, c.App.AccountKeeper.GetModuleAddress(erc20types.ModuleName), t.Base).BigInt()
+		case k.h == -3 && k.kind == 0:
+			return c.App.BankKeeper.GetSupply(ctx, t.Base).Amount.BigInt()
+		case k.h == -3 && k.kind == 1:
+			return c.App.BankKeeper.GetSupply(ctx, t.BridgeDenom).Amount.BigInt()
+		default:
+			return totalSupply(c, ctx, t.Erc20)
+		}
+	}
+	snapshot := func(ctx sdk.Context) string {
+		var items []string
+		for _, k := range keys {
+			items = append(items, lib.Pair(fmt.Sprintf("(%s, %d, %d)", lib.Z(k.h), k.kind, k.t), lib.ZBig(read(ctx, k))))
+		}
+		return lib.List(items)
+	}
+	preBal := snapshot(B)
+	evm0 := c.App.EvmKeeper.GetState(B, to, common.Hash{}).Big()
+	callsBefore := map[uint64]bool{}
+	x.Keeper.IterateOutgoingBridgeCalls(B, func(o *crosschaintypes.OutgoingBridgeCall) bool { callsBefore[o.Nonce] = true; return false })
+
+	// ---- branch 1: the real operation, as a transaction
+	B1, _ := B.CacheContext()
+	err := tryOn(B1, func(ctx sdk.Context) error { return x.Keeper.ExecuteClaim(ctx, nonce) })
+	post := c.DumpAll(B1)
+	postBal := snapshot(B1)
+	evm1 := c.App.EvmKeeper.GetState(B1, to, common.Hash{}).Big()
+	_, stillPending := x.Keeper.GetPendingExecuteClaim(B1, nonce)
+	var newCalls []string
+	x.Keeper.IterateOutgoingBridgeCalls(B1, func(o *crosschaintypes.OutgoingBridgeCall) bool {
+		if callsBefore[o.Nonce] {
 			return false
-		})
+		}
+		var ts []string
+		for _, t := range o.Tokens {
+			id := int64(-1)
+			for i, tk := range e.toks {
+				if tk.Contract == t.Contract {
+					id = int64(i)
+				}
+			}
+			ts = append(ts, lib.Pair(lib.Z(id), lib.ZBig(t.Amount.BigInt())))
+		}
+		rid, ok := hid[crosschaintypes.ExternalAddrToHexAddr("eth", o.Refund)]
+		if !ok {
+			rid = -99
+		}
+		newCalls = append(newCalls, lib.Pair(lib.Z(rid), lib.List(ts)))
+		return false
+	})
+
+	// ---- classify by construction: does the inner step fail?
+	hasUnknown := false
+	for _, ta := range k.Tokens {
+		if ta[0] == 9 {
+			hasUnknown = true
+		}
 	}
-	{
-		ctx, _ := c.Ctx.CacheContext()
-		err := x.Keeper.BridgeCallHandler(ctx, msg)
-		fmt.Println("refund has nothing: err =", err)
-		show(ctx, "after")
+	sums := map[int64]int64{}
+	for _, ta := range k.Tokens {
+		sums[ta[0]] += ta[1]
 	}
-	{
-		ctx, _ := c.Ctx.CacheContext()
-		c.App.BankKeeper.MintCoins(ctx, "mint", sdk.NewCoins(sdk.NewCoin(A.Base, sdkmath.NewInt(1000)), sdk.NewCoin(B.Base, sdkmath.NewInt(1000))))
-		c.App.BankKeeper.SendCoinsFromModuleToAccount(ctx, "mint", F.Bytes(), sdk.NewCoins(sdk.NewCoin(A.Base, sdkmath.NewInt(1000)), sdk.NewCoin(B.Base, sdkmath.NewInt(1000))))
-		show(ctx, "before")
-		err := x.Keeper.BridgeCallHandler(ctx, msg)
-		fmt.Println("refund rich: err =", err)
-		show(ctx, "after")
+	disabledHit := false
+	for _, d := range k.Disabled {
+		if sums[int64(d)] > 0 {
+			disabledHit = true
+		}
 	}
-	{
-		ctx, _ := c.Ctx.CacheContext()
-		m2 := *msg
-		m2.Refund = rev.Hex()
-		err := x.Keeper.BridgeCallHandler(ctx, &m2)
-		fmt.Println("refund==to: err =", err)
-		show(ctx, "after")
+	innerFails := !hasUnknown && (disabledHit || (isContract && fails))
+	wroteInside := innerFails && (len(sums) > 0 || writes != 0)
+
+	// ---- monitor: designated outcome on a second fresh branch, full dump comparison
+	if innerFails {
+		B2, _ := B.CacheContext()
+		e.designatedBridgeCall(B2, msg, nonce, refund)
+		want := c.DumpAll(B2)
+		diff := lib.DiffDumps(want, post)
+		rel := "receiver==refund"
+		if receiver != refund {
+			rel = "receiver!=refund"
+		}
+		if err != nil {
+			e.rep.Fail(lib.Failure{Kind: "monitor", Sig: "C18:bridgecall:" + rel + ":error",
+				What:   "inbound bridge call with a failing contract call did not end in the designated refund: ExecuteClaim returned " + trunc(err.Error(), 120),
+				Replay: map[string]interface{}{"case": k, "error": err.Error()}})
+		} else if len(diff) > 0 {
+			e.rep.Fail(lib.Failure{Kind: "monitor", Sig: "C18:bridgecall:" + rel + ":diff",
+				What:   "state after a tolerated bridge-call failure differs from the designated outcome (refund record funded by the deposit, nothing else)",
+				Replay: map[string]interface{}{"case": k, "diff(-designated,+real)": diff}})
+		}
 	}
+	e.rep.Case("bc:"+fmt.Sprint(k), wroteInside)
+	e.rep.Count("bridgecall:target=" + k.Target)
+	e.rep.Count(fmt.Sprintf("bridgecall:innerFails=%v,refund=%s,err=%v", innerFails, k.Refund, err != nil))
+	e.rep.Sample(map[string]interface{}{"boundary": "bridgecall", "case": k, "err": fmt.Sprint(err)})
+
+	// ---- abstract case for the model
+	var toks []string
+	for _, ta := range k.Tokens {
+		toks = append(toks, lib.Pair(lib.Z(ta[0]), lib.Z(ta[1])))
+	}
+	var en []int64
+	for t := range e.toks {
+		dis := false
+		for _, d := range k.Disabled {
+			if d == t {
+				dis = true
+			}
+		}
+		if !dis {
+			en = append(en, int64(t))
+		}
+	}
+	return fmt.Sprintf("mk_bc_case %s [0; 1; 2] %s true %d %d %d %d %s %s %s %s %d %s %s %s %s %s %s",
+		preBal, lib.ZList(en), nonce, hid[sender], hid[refund], hid[to], lib.Bool(isContract), lib.Bool(k.SendCallTo), lib.List(toks),
+		lib.Bool(fails), writes, lib.ZBig(evm0),
+		lib.Bool(err == nil), postBal, lib.List(newCalls), lib.Bool(stillPending), lib.ZBig(evm1))
+}
+
+// designatedBridgeCall writes, with the keeper's own primitives, what a failed inbound bridge call is meant
+// to leave behind: the claim consumed, the bridge account bookkeeping of ExecuteClaim, and ONE outgoing
+// refund bridge call for the deposited amounts to the refund address.  No balance moves: the deposit goes
+// out again as the refund.
+func (e *env) designatedBridgeCall(ctx sdk.Context, msg *crosschaintypes.MsgBridgeCallClaim, nonce uint64, refund common.Address) {
+	k := e.x.Keeper
+	k.DeletePendingExecuteClaim(ctx, nonce)
+	k.CreateBridgeAccount(ctx, msg.TxOrigin)
+	sum := map[string]sdkmath.Int{}
+	for i, tc := range msg.TokenContracts {
+		if v, ok := sum[tc]; ok {
+			sum[tc] = v.Add(msg.Amounts[i])
+		} else {
+			sum[tc] = msg.Amounts[i]
+		}
+	}
+	// ordered like the base coins (by base denom)
+	type ent struct {
+		base string
+		t    crosschaintypes.ERC20Token
+	}
+	var ents []ent
+	for _, t := range e.toks {
+		if v, ok := sum[t.Contract]; ok && v.IsPositive() {
+			ents = append(ents, ent{t.Base, crosschaintypes.NewERC20Token(v, t.Contract)})
+		}
+	}
+	sort.Slice(ents, func(i, j int) bool { return ents[i].base < ents[j].base })
+	tokens := make([]crosschaintypes.ERC20Token, 0, len(ents))
+	for _, en := range ents {
+		tokens = append(tokens, en.t)
+	}
+	out, err := k.BuildOutgoingBridgeCall(ctx, refund, refund, tokens, common.Address{}, nil, nil, nonce)
+	lib.Must(err)
+	k.AddOutgoingBridgeCallWithoutBuild(ctx, out)
+}
+
+func totalSupply(c *lib.Chain, ctx sdk.Context, erc20 common.Address) *big.Int {
+	var res struct{ Value *big.Int }
+	if err := c.App.EvmKeeper.QueryContract(ctx, common.BytesToAddress(c.App.AccountKeeper.GetModuleAddress(erc20types.ModuleName)), erc20, contract.GetFIP20().ABI, "totalSupply", &res); err != nil {
+		return big.NewInt(-1)
+	}
+	return res.Value
+}
+
+func trunc(s string, n int) string {
+	if len(s) > n {
+		return s[:n]
+	}
+	return s
 }
